@@ -203,6 +203,72 @@ def c19_struct(tier="quick", seed=0):
     return out
 
 
+@groups.group(id="C19.quote", prop="C19", kind="K4", functions=["microjs.context:Context._create_json_object.<quote_json>"])
+def c19_quote(tier="quick", seed=0):
+    """QuoteJSONString decided for every string: (K3) the real quoting function is a character-wise map -- one loop over
+    the text, every path through its body appends exactly one piece that depends on the current character only, the
+    result is the opening quote, the pieces in order and the closing quote -- and (K4) the piece of EVERY code point
+    U+0000..U+FFFF, obtained through the real JSON.stringify, is the one ECMA-262 25.5.2.3 prescribes"""
+    from pyvc import structural as S
+    import ast
+    from microjs import Context
+    out = []
+    # K3: character-wise structure
+    why = None
+    try:
+        q = S.fn("microjs.context", "Context._create_json_object.<quote_json>")
+        param = q.args.args[0].arg
+        loops = [n for n in ast.walk(q) if isinstance(n, (ast.For, ast.While))]
+        if len(loops) != 1 or not isinstance(loops[0], ast.For) or ast.unparse(loops[0].iter) != param or not isinstance(loops[0].target, ast.Name):
+            why = "not a single `for <ch> in <text>` loop"
+        else:
+            ch = loops[0].target.id
+
+            def appends_once(stmts):
+                """every path through stmts is exactly one  out.append(<expr over ch>)"""
+                if len(stmts) != 1:
+                    return False
+                st = stmts[0]
+                if isinstance(st, ast.If):
+                    return bool(st.orelse) and appends_once(st.body) and appends_once(st.orelse) and names_ok(st.test)
+                return (isinstance(st, ast.Expr) and isinstance(st.value, ast.Call) and ast.unparse(st.value.func) == "out.append" and len(st.value.args) == 1
+                        and names_ok(st.value.args[0]))
+
+            consts = {n.targets[0].id for n in q.body if isinstance(n, ast.Assign) and isinstance(n.targets[0], ast.Name) and isinstance(n.value, (ast.Dict, ast.Constant))}
+
+            def names_ok(e):
+                return all(n.id in {ch, "ord", "chr", "hex", "format"} | consts for n in ast.walk(e) if isinstance(n, ast.Name))
+            if not appends_once(loops[0].body):
+                why = "a path through the loop body does not append exactly one piece computed from the current character"
+            else:
+                src = ast.unparse(q)
+                if "out = ['\"']" not in src or "out.append('\"')\n    return ''.join(out)" not in src:
+                    why = "the pieces are not framed by the two quotes and joined in order"
+                mut = [n for n in ast.walk(loops[0]) if isinstance(n, (ast.Assign, ast.AugAssign, ast.Delete)) or
+                       (isinstance(n, ast.Call) and isinstance(n.func, ast.Attribute) and n.func.attr in ("pop", "insert", "clear", "extend", "remove", "__setitem__"))]
+                if mut:
+                    why = "the loop body changes state other than by appending"
+    except KeyError:
+        why = "quote_json not found"
+    # (an unrecognised shape is not a violation: the K4 part then decides single characters only and the bounded grid the rest)
+    out.append(ob("C19.quote.character-wise", why is None, "K3", "quote_json maps the text character by character" if why is None else f"shape not recognised: {why}", unknown=why is not None))
+    # K4: the image of every code point
+    ctx = Context()
+    got = ctx.eval("var o = []; for (var cp = 0; cp < 65536; cp++) { o.push(JSON.stringify(String.fromCharCode(cp))); } o")
+    pair = ctx.eval("[JSON.stringify('a' + String.fromCharCode(0xD800) + 'b'), JSON.stringify(String.fromCharCode(10, 34, 92, 0x1F, 0x20, 0x7F, 0xDFFF, 0xE000)), JSON.stringify('')]")
+    bad = None
+    for cp, g in enumerate(got):
+        want = quote(chr(cp))
+        if g != want and bad is None:
+            bad = (cp, g, want)
+    out.append(ob("C19.quote.every-code-unit", bad is None, "K4", "65536 single-character strings" if bad is None else f"JSON.stringify(String.fromCharCode({bad[0]})) = {bad[1]!r}, ECMAScript {bad[2]!r}",
+                  witness=(f"JSON.stringify(String.fromCharCode({bad[0]}))" if bad else None), confirmed=True if bad else None, domain=65536))
+    want3 = [quote("a\ud800b"), quote("\n\"\\\x1f \x7f\udfff\ue000"), '""']
+    out.append(ob("C19.quote.framing", pair == want3, "K4", "pieces are concatenated in order between two quotes" if pair == want3 else f"{pair!r} expected {want3!r}",
+                  witness="JSON.stringify('a\\ud800b')" if pair != want3 else None, confirmed=True if pair != want3 else None, domain=3))
+    return out
+
+
 def _chunk(args):
     kind, items = args
     from microjs import Context
